@@ -3,6 +3,8 @@
 mod c01;
 mod c02;
 mod c03;
+mod c06;
+mod c07;
 mod c08;
 mod c09;
 mod c10;
@@ -56,6 +58,7 @@ fn main() {
         let v: serde_json::Value = std::fs::read_to_string(path).ok().and_then(|t| serde_json::from_str(&t).ok()).unwrap_or(serde_json::Value::Null);
         match prop.as_str() {
             "C01" => c01::replay(&mut rep, &v),
+            "C06" => c06::replay(&mut rep, &v),
             "C09" => c09::replay(&mut rep, &v),
             "C10" => c10::replay(&mut rep, &v),
             "C14" => c14::replay(&mut rep, &v),
@@ -73,6 +76,8 @@ fn main() {
         "C02" => c02::run_c02(&mut rep, &tier, seed),
         "C03" => c03::run(&mut rep, &tier, seed),
         "C05" => c02::run_c05(&mut rep, &tier, seed),
+        "C06" => c06::run(&mut rep, &tier, seed),
+        "C07" => c07::run(&mut rep, &tier, seed),
         "C08" => c08::run(&mut rep, &tier, seed),
         "C09" => c09::run(&mut rep, &tier, seed),
         "C10" => c10::run(&mut rep, &tier, seed),
